@@ -20,6 +20,7 @@ RULE = ("case = format x gateway flavour x initial tree (with or without an exis
         "is serialised. Enumerated: every fault position in sequences of 1-4 scheduled saves; every j x every "
         "candidate message; plus seeded random sequences. non-trivial = distinct case in which at least one save "
         "wrote the file and at least one save failed or had its message delivered during serialisation")
+RULE += ' MONITORS ONLY: harness/impl/linkfile.py - symbolically linked persistence file, a directory operation of the save fails (18 variants).'
 ASSUMPTIONS = [
     "a save is atomic between the modelled sub-steps (Begin, Open, one per object visited by the serialiser, Sync, "
     "the two renames, the removal); inbound messages interleave only at these points (the tie realises them at the "
